@@ -60,7 +60,8 @@ Hypothesis FAN : one_fan c2v opp.
 
 (** no split corner is registered; no vertex is invalidated unless an S symbol was decoded with remove_invalid_vertices *)
 Definition QUIET (k : nat) (d : D.st) : Prop :=
-  D.splits d = [] /\ ((rm = false \/ ~ In 1 (firstn k Y)) -> D.invalid d = []).
+  D.splits d = [] /\ ((rm = false \/ ~ In 1 (firstn k Y)) -> D.invalid d = []) /\
+  (length (D.invalid d) <= count_occ Z.eq_dec (firstn k Y) 1%Z)%nat.
 
 (** the decoder's active corner stack after [k] symbols, as indices of faces (entry j = corner 3j), top first:
     E pushes, C / R / L replace the top, S (without split event) merges the two top entries *)
@@ -127,25 +128,30 @@ Proof.
     assert (Fin : forall d', D.step NC maxv rm (Z.of_nat (length Y)) d (0 + Z.of_nat k) y = D.Ok d' ->
               SIM (S k) d' -> D.nv d' = D.nv d + cntv1 y -> D.events d' = [] -> D.splits d' = D.splits d ->
               (y <> 1 \/ rm = false -> D.invalid d' = D.invalid d) ->
+              (length (D.invalid d') <= length (D.invalid d) + (if (y =? 1)%Z then 1 else 0))%nat ->
               D.stack d' <> [] -> D.stack d' = map (fun j => dco j 0) (tops (S k)) ->
               exists d0, D.bind (D.step NC maxv rm (Z.of_nat (length Y)) d (0 + Z.of_nat k) y) (fun s => D.Ok s) = D.Ok d0 /\
                 SIM (S k) d0 /\ DP.W NC maxv (Z.of_nat (S k)) d0 /\ DF.FI (Z.of_nat (S k)) d0 /\
                 D.nv d0 = cntv (firstn k Y ++ [y]) /\ D.events d0 = [] /\ QUIET (S k) d0 /\
                 D.stack d0 = map (fun j => dco j 0) (tops (S k))).
-    { intros d' Es S' Nv' Ev' Sp' In' _ St'. exists d'. rewrite Es. cbn [D.bind]. split; [reflexivity|]. split; [auto|].
+    { intros d' Es S' Nv' Ev' Sp' In' Ln' _ St'. exists d'. rewrite Es. cbn [D.bind]. split; [reflexivity|]. split; [auto|].
       destruct (DP.step_W _ _ _ _ _ _ _ _ HW' HN Es) as (W' & Nf' & _).
       pose proof (DF.step_FI _ _ _ _ _ _ _ _ HW' HF' HN Es) as F'.
       assert (Enf : D.nfaces d' = Z.of_nat (S k)) by lia. rewrite Enf in W', F'.
       split; [auto|]. split; [auto|]. split; [rewrite cntv_app; cbn [cntv]; lia|]. split; [auto|]. split; [|exact St'].
-      destruct Hinv as [Q1 Q2]. split; [congruence|]. rewrite (firstn_S_nth _ _ _ Ey). intros [Hr|Hn].
-      - rewrite In' by auto. apply Q2. auto.
-      - rewrite In'. apply Q2. right. intro X. apply Hn. apply in_or_app. auto.
-        left. intro X. apply Hn. apply in_or_app. right. left. auto. }
+      destruct Hinv as (Q1 & Q2 & Q3). split; [congruence|]. rewrite (firstn_S_nth _ _ _ Ey). split.
+      + intros [Hr|Hn].
+        * rewrite In' by auto. apply Q2. auto.
+        * rewrite In'. apply Q2. right. intro X. apply Hn. apply in_or_app. auto.
+          left. intro X. apply Hn. apply in_or_app. right. left. auto.
+      + rewrite count_occ_app. cbn [count_occ]. destruct (Z.eq_dec y 1) as [->|Ny].
+        * cbn [Z.eqb Pos.eqb] in Ln'. lia.
+        * replace (y =? 1) with false in Ln' by lia. lia. }
     destruct Sc as [(-> & N0 & N1 & N2)|[(-> & K1 & Eo & N0 & N1)|[(-> & K1 & Eo & N0 & N2)|[(-> & K1 & Eo & N0 & CI)|(-> & K1 & Eo & N0 & (ja & T & ET & El) & SB)]]]].
     + (* E *)
       destruct (dec_step_E_full NC maxv rm d (0 + Z.of_nat k) (Z.of_nat (length Y)) HW' HN ltac:(unfold cntv1 in Hc1; cbn in Hc1; lia) Hev)
         as (d' & Es & A1 & A2 & A3 & A4 & A5 & A6 & A7 & A8).
-      apply (Fin d' Es); [ | rewrite A3; reflexivity | exact A5 | exact A6 | intros _; exact A7 | rewrite A4; discriminate | ].
+      apply (Fin d' Es); [ | rewrite A3; reflexivity | exact A5 | exact A6 | intros _; exact A7 | rewrite A7; cbn [Z.eqb Pos.eqb]; lia | rewrite A4; discriminate | ].
       * apply (SIM_E k d d'); auto; try (rewrite ?A2, ?Hnf; auto; lia).
         intros r Hr. destruct r as [|[|[|r]]]; auto; lia.
       * rewrite A4, Hst0. cbn [tops]. rewrite Ey. cbn [Z.eqb Pos.eqb map]. f_equal. unfold dco. rewrite Hnf. lia.
@@ -157,7 +163,7 @@ Proof.
         intros j' Hj' F. rewrite eco_face in F. apply Q_face_inj in F; lia. }
       destruct (dec_step_RL_full NC maxv rm true d (0 + Z.of_nat k) (Z.of_nat (length Y)) _ rest HW' HN ltac:(unfold cntv1 in Hc1; cbn in Hc1; lia) Hev Est Fa)
         as (d' & Es & A1 & A2 & A3 & A4 & A5 & A6 & A7 & A8).
-      apply (Fin d' Es); [ | rewrite A3; reflexivity | exact A5 | exact A6 | intros _; exact A7 | rewrite A4; discriminate | ].
+      apply (Fin d' Es); [ | rewrite A3; reflexivity | exact A5 | exact A6 | intros _; exact A7 | rewrite A7; cbn [Z.eqb Pos.eqb]; lia | rewrite A4; discriminate | ].
       * apply (SIM_RL k d d' 2%nat); auto; try lia.
         -- rewrite A1, Hnf. replace (dco k 2) with (3 * Z.of_nat k + 2) by (unfold dco; lia). reflexivity.
         -- rewrite A2, Hnf. cbn [Nat.modulo Nat.divmod Nat.add fst snd Nat.sub].
@@ -173,7 +179,7 @@ Proof.
         intros j' Hj' F. rewrite eco_face in F. apply Q_face_inj in F; lia. }
       destruct (dec_step_RL_full NC maxv rm false d (0 + Z.of_nat k) (Z.of_nat (length Y)) _ rest HW' HN ltac:(unfold cntv1 in Hc1; cbn in Hc1; lia) Hev Est Fa)
         as (d' & Es & A1 & A2 & A3 & A4 & A5 & A6 & A7 & A8).
-      apply (Fin d' Es); [ | rewrite A3; reflexivity | exact A5 | exact A6 | intros _; exact A7 | rewrite A4; discriminate | ].
+      apply (Fin d' Es); [ | rewrite A3; reflexivity | exact A5 | exact A6 | intros _; exact A7 | rewrite A7; cbn [Z.eqb Pos.eqb]; lia | rewrite A4; discriminate | ].
       * apply (SIM_RL k d d' 1%nat); auto; try lia.
         -- rewrite A1, Hnf. replace (dco k 1) with (3 * Z.of_nat k + 1) by (unfold dco; lia). reflexivity.
         -- rewrite A2, Hnf. cbn [Nat.modulo Nat.divmod Nat.add fst snd Nat.sub].
@@ -217,7 +223,7 @@ Proof.
         rewrite eco_next in X by auto. change (eco (k - 1) 1) with (next_c (eco (k - 1) 0)) in X.
         apply Nk1. change (nth k Q 0%nat) with (eco k 0). congruence.
       * rewrite Ena, Evc, Eb in A1, A2.
-        apply (Fin d' Es); [ | rewrite A3; unfold cntv1; cbn; lia | congruence | exact A6 | intros _; exact A7 | rewrite A4; discriminate | ].
+        apply (Fin d' Es); [ | rewrite A3; unfold cntv1; cbn; lia | congruence | exact A6 | intros _; exact A7 | rewrite A7; cbn [Z.eqb Pos.eqb]; lia | rewrite A4; discriminate | ].
         -- apply (SIM_C k d d' jb rb); auto; try lia.
            ++ rewrite A1, Hnf. fold rl.
               replace (dco k 1) with (3 * Z.of_nat k + 1) by (unfold dco; lia).
@@ -249,11 +255,11 @@ Proof.
       destruct (Qrng (k - 1)%nat ltac:(lia)) as [_ Dk1]. destruct (nondeg_corner c2v _ Dk1) as (Nr1 & Nr2 & Nr3).
       destruct (dec_step_S_full NC maxv rm d (0 + Z.of_nat k) (Z.of_nat (length Y)) (dco ja 0) (dco (k - 1) 0) (map (fun j => dco j 0) T) HW' HF' HN Est)
         as (d' & Es & A1 & A2 & A3 & A4 & A5 & A6 & A7 & A8); auto.
-      * destruct Hinv as [Q1 _]. rewrite Q1. reflexivity.
+      * destruct Hinv as (Q1 & _). rewrite Q1. reflexivity.
       * rewrite Epa, Enb. apply (S_sep c2v opp nf Hlen OK Q Qrng Qnd k d ja); auto.
       * rewrite Epb, Enb. intro X. apply (s_vtx _ _ HS) in X; try lia. apply Nr3. symmetry. exact X.
       * rewrite Hnf in A1, A2.
-        apply (Fin d' Es); [ | rewrite A3; unfold cntv1; cbn; lia | congruence | exact A6 | | rewrite A4; discriminate | ].
+        apply (Fin d' Es); [ | rewrite A3; unfold cntv1; cbn; lia | congruence | exact A6 | | rewrite A7; destruct rm; cbn [length Z.eqb Pos.eqb]; lia | rewrite A4; discriminate | ].
         -- apply (SIM_S c2v opp nf Hlen OK Q Qrng Qnd NC maxv k d d' ja); auto. rewrite A8, Hnf. lia.
         -- intros [X|X]; [congruence|]. rewrite A7, X. reflexivity.
         -- rewrite A4. cbn [tops]. rewrite Ey, ET. cbn [Z.eqb Pos.eqb map tl]. f_equal. unfold dco. rewrite Hnf. lia.
@@ -447,7 +453,7 @@ Theorem dec_roundtrip_noS B :
   (forall j, (j < length Y)%nat -> script_at j) -> start_ok B ->
   exists n s, D.eb_core NC maxv (Z.of_nat (length Q)) rm Y [] (D.bits_of_list B) = D.Ok (n, s) /\ eb_iso c2v opp Q (D.c2v s) (D.copp s).
 Proof.
-  intros Complete Hq Sc SO. destruct (sym_loop_sim (length Y) (le_n _) Sc) as (d & E & HS & HW & HF & Hnv & Hev & (_ & Hinv) & Hst).
+  intros Complete Hq Sc SO. destruct (sym_loop_sim (length Y) (le_n _) Sc) as (d & E & HS & HW & HF & Hnv & Hev & (_ & Hinv & _) & Hst).
   rewrite firstn_all in E, Hinv. specialize (Hinv Hq). unfold D.eb_core. rewrite E. cbn [D.bind].
   pose proof (DP.w_nv _ _ _ _ HW) as Hn. replace (D.nv d >? maxv) with false by lia.
   destruct (start_loop_sim B SO HNC (tops (length Y)) 0%nat d eq_refl) as (s' & E' & A1 & A2 & A3 & _ & _); auto.
@@ -512,6 +518,40 @@ Proof.
     + intros j r Hj Hr N. rewrite Esl in *.
       destruct (DF.slf_created NC maxv s' _ _ HW2 (Rd j r Hj Hr)) as [Z0|Z0]; [congruence|].
       apply EQ; auto.
+Qed.
+
+(** the state BEFORE the vertex compaction (for counting the decoder's vertices): after the symbol loop [d] and after the
+    start-face phase [s'] *)
+Theorem dec_precompact B :
+  (forall f, (f < nf)%nat -> is_degenerated c2v f = false -> In f (map (fun c => (c / 3)%nat) Q)) ->
+  (forall j, (j < length Y)%nat -> script_at j) -> start_ok B ->
+  exists d s', D.sym_loop NC maxv rm (Z.of_nat (length Y)) Y 0 (D.init_st []) = D.Ok d /\
+    D.start_loop NC maxv (Z.of_nat (length Q)) (D.bits_of_list B) 0 (D.stack d) d = D.Ok s' /\
+    D.nv s' = cntv Y /\ D.vc s' = D.vc d /\ D.invalid s' = D.invalid d /\
+    (length (D.invalid d) <= count_occ Z.eq_dec Y 1%Z)%nat /\
+    DP.W NC maxv (Z.of_nat (length Y)) d /\ DF.FI (Z.of_nat (length Y)) d /\ D.nfaces d = Z.of_nat (length Y) /\
+    DP.W NC maxv (Z.of_nat (length Q)) s' /\ DC.FJ (Z.of_nat (length Q)) s' /\
+    eb_iso c2v opp Q (D.c2v s') (D.copp s').
+Proof.
+  intros Complete Sc SO. destruct (sym_loop_sim (length Y) (le_n _) Sc) as (d & E & HS & HW & HF & Hnv & Hev & (_ & _ & Hlen') & Hst).
+  rewrite firstn_all in E, Hnv, Hlen'.
+  destruct (start_loop_sim B SO HNC (tops (length Y)) 0%nat d eq_refl) as (s' & E' & A1 & A2 & A3 & HW2 & HJ2); auto.
+  { cbn [firstn]. unfold cnt_true. cbn. rewrite Nat.add_0_r. auto. }
+  { cbn [firstn]. unfold cnt_true. cbn. rewrite Nat.add_0_r. auto. }
+  { cbn [firstn]. unfold cnt_true. cbn. rewrite Nat.add_0_r. apply DC.FI_FJ. auto. }
+  { cbn [firstn]. unfold cnt_true. cbn. rewrite Nat.add_0_r. apply FI_LAB. auto. }
+  pose proof (s_nf _ _ HS) as Hnf.
+  assert (HWn : DP.W NC maxv (D.nfaces d) d) by (rewrite Hnf; exact HW).
+  assert (Hstk : Forall (fun c => 0 <= c < 3 * D.nfaces d) (D.stack d)) by apply (DP.w_stack _ _ _ _ HWn).
+  rewrite <- Hst in E'.
+  destruct (DP.start_loop_W NC maxv _ _ _ _ _ _ HNC HWn Hstk E') as (_ & _ & Env & _).
+  destruct (DO.start_loop_tail NC maxv _ (D.bits_of_list B) (D.stack d) O d HNC HWn) as (_ & T2).
+  { rewrite Hnf. apply DO.FI_NI. exact HF. }
+  { exact Hstk. }
+  destruct (T2 s' E') as (_ & Evc).
+  exists d, s'. split; [exact E|]. split; [exact E'|]. split; [congruence|]. split; [exact Evc|]. split; [exact A3|].
+  split; [exact Hlen'|]. split; [exact HW|]. split; [exact HF|]. split; [exact Hnf|]. split; [exact HW2|]. split; [exact HJ2|].
+  apply sim_iso_lab; auto.
 Qed.
 
 End Loop.
